@@ -270,6 +270,10 @@ pub fn run(run: &mut Run) {
     }
     let _ = ps;
 
+    // ---- (d) host functions of arity 0-9 over every parameter type and extractor, called with
+    //      0..arity+2 matching / mismatching arguments in both styles: never a panic
+    crate::props::c20::part_hosts_for(run, "C02", true);
+
     // ---- (c) spines: every sequence of wrappers to depth 6 (thorough 8)
     let wrappers: Vec<Box<dyn Fn(E) -> E>> = vec![
         Box::new(|e| E::Un("-", b(e))),
